@@ -800,3 +800,108 @@ pub fn gen_crl(r: &mut Rng, sw: &Swarm) -> CrlRecipe {
 pub fn gen_attrs(r: &mut Rng) -> Vec<AttrR> {
     (0..r.range(0, 2)).map(|_| AttrR { oid_idx: r.below(3) as u8, text: s_from(r, PRINTABLE, 0, 20) }).collect()
 }
+
+impl CertRecipe {
+    /// The simplest recipe every build accepts; used by the minimiser.
+    pub fn minimal() -> CertRecipe {
+        CertRecipe {
+            not_before: 1_600_000_000,
+            not_after: 1_700_000_000,
+            nanos: 0,
+            serial: Some("01".into()),
+            sans: vec![],
+            dn: DnRecipe(vec![(DnTypeR::Cn, DnValueR::Utf8("x".into()))]),
+            is_ca: IsCaR::No,
+            key_usages: vec![],
+            ekus: vec![],
+            name_constraints: None,
+            crl_dps: vec![],
+            custom_exts: vec![],
+            use_aki: false,
+            kid: KidR::Pre(vec![1; 20]),
+        }
+    }
+    /// One-step simplifications of this recipe.
+    pub fn shrink(&self) -> Vec<CertRecipe> {
+        let mut v = Vec::new();
+        let m = CertRecipe::minimal();
+        if *self != m {
+            let mut c = m.clone();
+            if self.unsupported_in_csr() != c.unsupported_in_csr() {
+                c.serial = None;
+            }
+            v.push(c);
+        }
+        macro_rules! reset {
+            ($f:ident) => {
+                if self.$f != m.$f {
+                    let mut c = self.clone();
+                    c.$f = m.$f.clone();
+                    v.push(c);
+                }
+            };
+        }
+        reset!(sans);
+        reset!(dn);
+        reset!(key_usages);
+        reset!(ekus);
+        reset!(name_constraints);
+        reset!(crl_dps);
+        reset!(custom_exts);
+        reset!(use_aki);
+        reset!(kid);
+        reset!(is_ca);
+        reset!(nanos);
+        reset!(not_before);
+        reset!(not_after);
+        if self.dn.0.len() > 1 {
+            for i in 0..self.dn.0.len() {
+                let mut c = self.clone();
+                c.dn.0.remove(i);
+                v.push(c);
+            }
+        }
+        if self.sans.len() > 1 {
+            let mut c = self.clone();
+            c.sans.truncate(self.sans.len() / 2);
+            v.push(c);
+        }
+        v
+    }
+}
+
+impl CrlRecipe {
+    pub fn minimal() -> CrlRecipe {
+        CrlRecipe {
+            this_update: 1_600_000_000,
+            next_update: 1_600_086_400,
+            crl_number: "01".into(),
+            idp: None,
+            revoked: vec![],
+            kid: KidR::Pre(vec![1; 20]),
+        }
+    }
+    pub fn shrink(&self) -> Vec<CrlRecipe> {
+        let mut v = Vec::new();
+        let m = CrlRecipe::minimal();
+        if *self != m {
+            v.push(m.clone());
+        }
+        if !self.revoked.is_empty() {
+            let mut c = self.clone();
+            c.revoked.truncate(self.revoked.len() / 2);
+            v.push(c);
+        }
+        if self.idp.is_some() {
+            let mut c = self.clone();
+            c.idp = None;
+            v.push(c);
+        }
+        if self.kid != m.kid {
+            let mut c = self.clone();
+            c.kid = m.kid.clone();
+            v.push(c);
+        }
+        v
+    }
+}
